@@ -16,6 +16,8 @@ ASSUMPTIONS = [
     "twin nodes are separate OS processes fed the same scenario; BlockExt.received_at is excluded from the comparison",
     "the verify cache is exercised through block import (the same transaction verified on two branches, with identical and with swapped witnesses); the pool-then-block path is covered by the pool engine's C13 runs, not compared twin-wise here",
     "SYSTEM_CELL (process-global OnceLock) is unset in every twin: not compared set vs unset",
+    "one scenario in three hands its first 3-25 first-time deliveries of valid-chain blocks to the chain service with Switch::DISABLE_SCRIPT, as the node does before its assume-valid target; blocks that are invalid by construction are always delivered with full verification (assume-valid concerns the trusted chain only)",
+    "planted gadgets (one scenario in three each): a time-locked transaction committed validly on one branch and one block too early on a later, longer branch; an uncle whose parent is an uncle included on another branch only",
 ]
 
 
